@@ -31,6 +31,14 @@ Proof.
     + destruct (IH vs' eq_refl Hin) as [H1 H2]. split; [exact H1|right; exact H2].
 Qed.
 
+Lemma dep_visits_labels vis dl vs : dep_visits vis dl = Some vs -> map fst vs = dl.
+Proof.
+  revert vs; induction dl as [|x dl IH]; intros vs H; simpl in H.
+  - inversion H; reflexivity.
+  - destruct (lookup x vis) as [vx|]; [|discriminate].
+    destruct (dep_visits vis dl) as [vs'|]; [|discriminate]. inversion H; subst. simpl. rewrite (IH vs' eq_refl). reflexivity.
+Qed.
+
 Lemma dep_visits_all vis dl vs : dep_visits vis dl = Some vs -> forall d, In d dl -> lookup d vis <> None.
 Proof.
   revert vs; induction dl as [|x dl IH]; intros vs H d Hd; simpl in H; [destruct Hd|].
@@ -141,7 +149,9 @@ Definition fresh (pr : project) (w : world) (vis : list (label * visit)) (l : la
   (exists vs, dep_visits vis (deps_of pr d) = Some vs /\
               forall dl vd, In (dl, vd) vs ->
                 exists prev, lookup dl (r_deps (rec_of w l)) = Some prev /\ stamp_eqb prev (stamp_of vd) = true) /\
-  utd_core w d (rec_of w l) = true.
+  utd_core w d (rec_of w l) = true /\
+  (* since fix 9a22738: the record holds no stamp for a dependency that is not declared *)
+  forallb (fun ls => mem (fst ls) (deps_of pr d)) (r_deps (rec_of w l)) = true.
 
 Lemma gens_exist_write w gens c : gens_exist (mkWorld (w_proj w) (write_files (w_files w) gens c) (w_recs w) (w_nextrun w) (w_stray w) (w_last w) (w_count w)) gens = true.
 Proof.
@@ -156,6 +166,15 @@ Lemma rec_of_update_same w files l r n s la co :
   rec_of (mkWorld (w_proj w) files (update l r (w_recs w)) n s la co) l = r.
 Proof. unfold rec_of; cbn [w_recs]. rewrite lookup_update_same. reflexivity. Qed.
 
+Lemma no_removed_dep_data (vs : list (label * visit)) dt rn rr :
+  no_removed_deps (mkRec (map (fun lv => (fst lv, stamp_of (snd lv))) vs) dt rn rr) vs = true.
+Proof.
+  unfold no_removed_deps. cbn [r_deps]. apply forallb_forall. intros [dl st] Hin. cbn [fst].
+  apply in_map_iff in Hin. destruct Hin as ([dl' vd] & E & Hin). cbn [fst snd] in E. injection E as E1 _.
+  unfold mem. apply existsb_exists. exists dl. split; [|apply N.eqb_refl].
+  apply in_map_iff. exists (dl', vd). split; [exact E1|exact Hin].
+Qed.
+
 (** the step of a target in a normal (not dry, not crashed) run establishes freshness when it succeeds *)
 Lemma step_target_fresh_g c w l d vs w' v evs ran vis :
   c_dry c = false ->
@@ -166,7 +185,8 @@ Lemma step_target_fresh_g c w l d vs w' v evs ran vis :
   r_rerun (rec_of w' l) = false /\
   (forall dl vd, In (dl, vd) vs ->
      exists prev, lookup dl (r_deps (rec_of w' l)) = Some prev /\ stamp_eqb prev (stamp_of vd) = true) /\
-  utd_core w' d (rec_of w' l) = true.
+  utd_core w' d (rec_of w' l) = true /\
+  no_removed_deps (rec_of w' l) vs = true.
 Proof.
   intros Hdry Hvs. unfold step_target. rewrite Hdry.
   destruct (first_failure vs) as [[]|]; try (intros H; inversion H; subst; simpl; discriminate).
@@ -178,9 +198,10 @@ Proof.
     apply andb_prop in Hcond. destruct Hcond as [Hcond Hrr].
     apply andb_prop in Hcond. destruct Hcond as [Hcond Hutd].
     apply andb_prop in Hcond. destruct Hcond as [_ Hdeps].
+    unfold deps_up_to_date in Hdeps. apply andb_prop in Hdeps. destruct Hdeps as [Hdeps Hnrm].
     apply negb_true_iff in Hrr. apply orb_false_iff in Hrr. destruct Hrr as [Hrr Halw].
-    split; [reflexivity|split; [exact Hrr|split]].
-    + intros dl vd Hin. unfold deps_up_to_date in Hdeps. rewrite forallb_forall in Hdeps.
+    split; [reflexivity|split; [exact Hrr|split; [|split; [|exact Hnrm]]]].
+    + intros dl vd Hin. unfold deps_match in Hdeps. rewrite forallb_forall in Hdeps.
       specialize (Hdeps (dl, vd) Hin). cbn [fst snd] in Hdeps.
       destruct (lookup dl (r_deps (rec_of w' l))) as [prev|]; [|discriminate].
       apply andb_prop in Hdeps. destruct Hdeps as [Hst _]. exists prev. split; [reflexivity|exact Hst].
@@ -198,15 +219,17 @@ Proof.
       destruct (c_crashed c && negb (mem l (c_recorded c))). { intros H; inversion H; subst; simpl; discriminate. }
       intros H; inversion H; subst. intros _.
       unfold rstamp. rewrite rec_of_update_same. cbn [r_data r_run r_rerun r_deps stamp_of v_data v_run].
-      split; [reflexivity|split; [reflexivity|split]].
+      split; [reflexivity|split; [reflexivity|split; [|split]]].
       * intros dl vd Hin. exists (stamp_of vd). split; [apply Hdd; exact Hin|apply stamp_eqb_refl].
       * unfold utd_core. cbn [r_data]. rewrite N.eqb_refl. cbn [andb]. apply gens_exist_write.
+      * apply no_removed_dep_data.
     + destruct (c_crashed c && negb (mem l (c_recorded c))). { intros H; inversion H; subst; simpl; discriminate. }
       intros H; inversion H; subst. intros _.
       unfold rstamp, set_rec. rewrite rec_of_update_same. cbn [r_data r_run r_rerun r_deps stamp_of v_data v_run].
-      split; [reflexivity|split; [reflexivity|split]].
+      split; [reflexivity|split; [reflexivity|split; [|split]]].
       * intros dl vd Hin. exists (stamp_of vd). split; [apply Hdd; exact Hin|apply stamp_eqb_refl].
       * unfold utd_core, file_sum. cbn [r_data w_files]. apply data_eqb_refl.
+      * apply no_removed_dep_data.
 Qed.
 
 Lemma step_target_fresh c w l d vs w' v evs ran vis :
@@ -218,8 +241,15 @@ Lemma step_target_fresh c w l d vs w' v evs ran vis :
   r_rerun (rec_of w' l) = false /\
   (forall dl vd, In (dl, vd) vs ->
      exists prev, lookup dl (r_deps (rec_of w' l)) = Some prev /\ stamp_eqb prev (stamp_of vd) = true) /\
-  utd_core w' d (rec_of w' l) = true.
+  utd_core w' d (rec_of w' l) = true /\
+  no_removed_deps (rec_of w' l) vs = true.
 Proof. intros Hdry _. apply step_target_fresh_g; exact Hdry. Qed.
+
+(** [no_removed_deps] only looks at the labels of the visits, which are the declared dependencies *)
+Lemma no_removed_declared vis dl vs r :
+  dep_visits vis dl = Some vs ->
+  no_removed_deps r vs = forallb (fun ls => mem (fst ls) dl) (r_deps r).
+Proof. intros H. unfold no_removed_deps. rewrite (dep_visits_labels _ _ _ H). reflexivity. Qed.
 
 (** ** the invariant of a normal run *)
 Definition finv (pr : project) (s : bstate) : Prop :=
@@ -260,9 +290,9 @@ Lemma fresh_preserved pr w w' vis l0 d0 v0 l d v :
              (mem p (def_gens d0) = true /\ lookup p (w_files w') <> None)) ->
   fresh pr w vis l d v -> fresh pr w' (update l0 v0 vis) l d v.
 Proof.
-  intros Hlink Hl0 Hne Hd Hd0 Hproj Hrec Hfiles (Hst & Hrr & (vs & Hvs & Hdeps) & Hutd).
+  intros Hlink Hl0 Hne Hd Hd0 Hproj Hrec Hfiles (Hst & Hrr & (vs & Hvs & Hdeps) & Hutd & Hdecl).
   unfold fresh, rstamp. rewrite (Hrec l Hne).
-  split; [exact Hst|split; [exact Hrr|split]].
+  split; [exact Hst|split; [exact Hrr|split; [|split; [|exact Hdecl]]]].
   - exists vs. split; [|exact Hdeps].
     rewrite dep_visits_update; [exact Hvs|exact Hl0|rewrite Hvs; discriminate].
   - unfold utd_core in *. destruct d as [deps srcs gens env k alw|p].
@@ -294,10 +324,12 @@ Proof.
       exists d0. split; [exact Hd0|].
       rewrite <- Hpr in Hvs.
       destruct (step_target_fresh_g c (b_w s) l0 d0 vs w' v evs ran (b_vis s) Hdry Hvs Hst Hok)
-        as (H1 & H2 & H3 & H4).
-      split; [exact H1|split; [exact H2|split; [|exact H4]]].
-      exists vs. split; [|exact H3]. rewrite Hpr in Hvs.
-      rewrite dep_visits_update; [exact Hvs|exact Hv0|rewrite Hvs; discriminate].
+        as (H1 & H2 & H3 & H4 & H5).
+      rewrite Hpr in Hvs.
+      split; [exact H1|split; [exact H2|split; [|split; [exact H4|]]]].
+      * exists vs. split; [|exact H3].
+        rewrite dep_visits_update; [exact Hvs|exact Hv0|rewrite Hvs; discriminate].
+      * rewrite <- (no_removed_declared _ _ _ _ Hvs). exact H5.
     + rewrite (lookup_update_other _ _ _ _ Hne) in Hl.
       destruct (Hinv l v Hl Hok) as (d & Hd & Hfresh). exists d. split; [exact Hd|].
       apply (fresh_preserved pr (b_w s) w' (b_vis s) l0 d0 v0 l d v); try assumption.
@@ -305,8 +337,8 @@ Proof.
     intros l v Hl Hok. destruct (N.eq_dec l l0) as [->|Hne].
     + rewrite lookup_update_same in Hl. inversion Hl; subst v. simpl in Hok. discriminate.
     + rewrite (lookup_update_other _ _ _ _ Hne) in Hl.
-      destruct (Hinv l v Hl Hok) as (d & Hd & (Hst & Hrr & (vs & Hvs & Hdeps) & Hutd)).
-      exists d. split; [exact Hd|]. split; [exact Hst|split; [exact Hrr|split; [|exact Hutd]]].
+      destruct (Hinv l v Hl Hok) as (d & Hd & (Hst & Hrr & (vs & Hvs & Hdeps) & Hutd & Hdecl)).
+      exists d. split; [exact Hd|]. split; [exact Hst|split; [exact Hrr|split; [|split; [exact Hutd|exact Hdecl]]]].
       exists vs. split; [|exact Hdeps].
       rewrite dep_visits_update; [exact Hvs|exact Hv0|rewrite Hvs; discriminate].
 Qed.
@@ -379,7 +411,7 @@ Lemma eval1_second c0 pr w vis1 seen s l :
 Proof.
   intros Hal Hdry Hcr Hpr Hfirst Hl1 Hdeps (Hw & Hran & Hbad & Hev & Hseen & Hvis).
   destruct (lookup l vis1) as [v1|] eqn:Ev1; [|contradiction].
-  destruct (Hfirst l v1 Ev1) as (Hok1 & d & Hd & Halw & (Hst & Hrr & (vs1 & Hvs1 & Hprev) & Hutd)).
+  destruct (Hfirst l v1 Ev1) as (Hok1 & d & Hd & Halw & (Hst & Hrr & (vs1 & Hvs1 & Hprev) & Hutd & Hdecl)).
   unfold eval1. destruct (lookup l (b_vis s)) as [v2|] eqn:Hv2.
   { (* already visited *)
     split; [exact Hw|split; [exact Hran|split; [exact Hbad|split; [exact Hev|split; [|exact Hvis]]]]].
@@ -399,10 +431,12 @@ Proof.
   assert (Hff : first_failure vs2 = None).
   { apply first_failure_all_ok. intros dl vd2 Hin. destruct (Hq dl vd2 Hin) as (vd1 & _ & ->). reflexivity. }
   assert (Hdu : deps_up_to_date (rec_of w l) vs2 = true).
-  { unfold deps_up_to_date. apply forallb_forall. intros [dl vd2] Hin. cbn [fst snd].
-    destruct (Hq dl vd2 Hin) as (vd1 & Hin1 & ->).
-    destruct (Hprev dl vd1 Hin1) as (prev & Hlk & Heq). rewrite Hlk.
-    unfold quiet, stamp_of in *. cbn [v_data v_run v_changed]. rewrite Heq. reflexivity. }
+  { unfold deps_up_to_date. apply andb_true_intro. split.
+    - unfold deps_match. apply forallb_forall. intros [dl vd2] Hin. cbn [fst snd].
+      destruct (Hq dl vd2 Hin) as (vd1 & Hin1 & ->).
+      destruct (Hprev dl vd1 Hin1) as (prev & Hlk & Heq). rewrite Hlk.
+      unfold quiet, stamp_of in *. cbn [v_data v_run v_changed]. rewrite Heq. reflexivity.
+    - rewrite (no_removed_declared _ _ _ _ Hvs2). exact Hdecl. }
   assert (Hu : up_to_date w d (rec_of w l) = true).
   { unfold up_to_date. unfold utd_core in Hutd. destruct d as [deps srcs gens env k alw|p]; [|exact Hutd].
     simpl in Halw. subst alw. exact Hutd. }
